@@ -88,7 +88,8 @@ def add_extras(rnd, spec, site):
         a = f'{main}!{wbgen.rc_coord(row, k + 1)}'
         spec['cells'].append({'a': a, 'f': tmpl.format(f=fref), 'p': [site], 'd': [],
                               'extra': True})
-    if rnd.random() < 0.35:
+    if rnd.random() < 0.35 and '(' not in sheet and '(' not in main:
+        # (pycel emits broken code for OFFSET(<reference on a sheet with parentheses>): C11)
         # a formula whose result is a *reference* to F (followed after the formula itself has
         # been calculated), and a dependant of it
         a = f'{main}!{wbgen.rc_coord(row + 2, 1)}'
@@ -217,6 +218,8 @@ def gen_case(rnd, tier, index):
             ops.append(ev(dag.order))
         if rnd.random() < 0.06:
             ops.append({'op': 'recalc'})      # recalculate() of everything known, fault or not
+        elif origin == 'xlsx' and mode == 'plain' and rnd.random() < 0.08:
+            ops.append({'op': 'validate'})    # validate_calcs(): swallows what fails
     repair = rnd.choice(('disarm', 'overwrite', 'expire') if kind == 'boom' else ('overwrite',))
     if confirm_kf1:
         repair = 'overwrite'
@@ -449,6 +452,20 @@ def run_case(case):
                                 exc=out['exc'])
                     else:
                         count('probe:recalculate-failed-under-fault')
+            elif k == 'validate':
+                fired0 = plugin.STATE['fired']
+                out = driver.step(op)
+                fired = plugin.STATE['fired'] - fired0
+                count('validate_calcs-calls')
+                if fired:
+                    count('fault:plugin-raise', fired)
+                    phase['fired_any'] = True
+                    count('probe:validate_calcs-swallowed-a-failure')
+                events.append((i, 'validate', out.get('exc'), fired))
+                sig_items.append(('validate', 'exc' if 'exc' in out else 'ok', fired > 0))
+                if 'exc' in out:
+                    violate('exception-in-validate_calcs', i, op, 'validate_calcs returns a report',
+                            out, exc=out['exc'])
             elif k == 'arm':
                 plugin.arm('F', exc=op['exc'], at=op['at'], persistent=op['persistent'])
                 phase['armed'] = True
@@ -500,7 +517,7 @@ def _short(op):
         return f"arm {op['exc']} at call {op['at']} {'until disarmed' if op['persistent'] else 'once'}"
     if op['op'] == 'overwrite':
         return f"overwrite {op['a']} := {values.show(op['v'])}"
-    if op['op'] in ('disarm', 'end-faulty', 'recalc'):
+    if op['op'] in ('disarm', 'end-faulty', 'recalc', 'validate'):
         return op['op']
     return c01._short(op)
 
